@@ -60,8 +60,15 @@ func init() {
 			for a := -70000; a <= 1000; a++ {
 				executors["alg.tables"](c, "alg.tables", M{"op": "alg.tables", "alg": a})
 			}
-			for _, a := range []int64{-1 << 31, 1 << 31, -1 << 62, 1 << 62, -65536, -65534, 65535, 7, 8, 35, 257} {
+			for _, a := range []int64{-1 << 31, 1 << 31, -1 << 62, 1 << 62, -65536, -65534, 65535, 7, 8, 35, 257, 1<<63 - 1, -1 << 63} {
 				executors["alg.tables"](c, "alg.tables", M{"op": "alg.tables", "alg": a})
+			}
+			// integers that agree with a registered identifier in their low 8 / 16 / 32 bits, or in magnitude (a table keyed by a narrower
+			// integer type, or by the absolute value, maps them like the identifier)
+			for _, id := range []int64{-7, -8, -35, -36, -37, -38, -39, -257, -258, -259, -65535} {
+				for _, a := range []int64{id + 1<<32, id - 1<<32, id + 1<<33, id + 1<<16, id - 1<<16, id + 1<<8, id - 1<<8, -id, id + (1<<63 - 1) + 1, id + 1<<48} {
+					executors["alg.tables"](c, "alg.tables", M{"op": "alg.tables", "alg": a})
+				}
 			}
 			c.Res.mu.Lock()
 			c.Res.Exhaustive = append(c.Res.Exhaustive, "Hash/X509SignatureAlgorithm on every integer in [-70000, 1000]")
